@@ -17,7 +17,7 @@ from harness.world import World, canon, jdump
 
 PID = "C09"
 FIELDS = ("name", "kids")
-NAMES = ["a", "b"]
+NAMES = ["a", "ab"]          # one name is a substring of the other: queries match names by equality
 PATHS = [[]] + [[x] for x in NAMES] + [[x, y] for x in NAMES for y in NAMES]
 
 G = {}   # shared with forked workers
@@ -356,7 +356,7 @@ def record_wide(seed, n=300, steps=40):
     rnd = random.Random(seed)
     w = World()
     for i in range(n):
-        w.new(rnd.choice(["a", "b"]))
+        w.new(rnd.choice(["a", "ab"]))
     fields = ("name", "kids", "ns", "content", "tail", "prefix", "attrs", "extras", "store")
     for c in range(2, n - 5):
         w.n(1).add_child(w.n(c))
@@ -390,7 +390,7 @@ def record_wide(seed, n=300, steps=40):
 
 
 def w_histories(jobs):
-    return [record_history(s, n, k, ["a", "b", "c"]) for (s, n, k) in jobs]
+    return [record_history(s, n, k, ["a", "ab", "b"]) for (s, n, k) in jobs]
 
 
 def run(rep, tier, seed):
@@ -455,7 +455,7 @@ def run(rep, tier, seed):
 
     # E. code -> spec: long random histories judged by TLC
     ntr, nst = (60, 150) if tier == "quick" else (600, 300)
-    names3 = ["a", "b", "c"]
+    names3 = ["a", "ab", "b"]
     rnd = random.Random(seed)
     jobs = [(seed * 7919 + i, rnd.randint(12, 20), nst) for i in range(ntr)]
     traces = [t for chunk in parallel(w_histories, jobs) for t in chunk]
